@@ -1,16 +1,19 @@
 /-
 Executable model of the directory-scan path of `gensquashfs` (property C11):
 
-  lib/sqfs/src/io/dir_unix.c          native iterator           → `nativeOrder`, `nativeEntry`
+  lib/sqfs/src/io/dir_unix.c          native iterator           → `strcmpC`, `compareNames`, `collectNames`, `qsortBy`,
+                                                                   `readNames`, `nativeNode`/`nativeList`, `nativeEntry`
   lib/sqfs/src/io/dir_rec.c           recursive (DFS) iterator  → `walkNode` / `walkList` (the explicit stack of open
                                                                    directory iterators is the call stack of `walk*`)
-  lib/sqfs/src/io/dir_hl.c            hard-link filter          → `hlNext`
   lib/common/src/dir_tree_iterator.c  filters / prefix / defaults → `shouldSkip`, `applyChanges`, `treeIterStep`
+  lib/sqfs/src/io/dir_hl.c            hard-link filter (wrapped around the tree iterator) → `hlNext`
   bin/gensquashfs/src/glob.c          `scan_directory`          → `scanStep`
   lib/fstree/src/fstree.c             `insert_sorted`, `mknode`, `fstree_get_node_by_path`, `fstree_add_generic`
   lib/fstree/src/hardlink.c           `resolve_link`, `fstree_resolve_hard_links` (only as far as the scan needs it;
                                        property C07 owns the full model in `Sqfs/Model/HardLink.lean`)
   lib/fstree/src/post_process.c       `alloc_inode_num_dfs`, `map_inodes_dfs`, `reorder_hard_links`, `file_list_dfs`
+  bin/gensquashfs/src/sort_by_file.c  `fstree_sort_files` (matching loop, `sort_file_list`) → `applySortRule`, `sortFileList`
+  bin/gensquashfs/src/mkfs.c          order in which `pack_files` hands the files to the block processor → `packOrder`
 
 Modelling decisions (all exercised by the correspondence check, tools/checks/c11.py):
   * a path is the list of its components; `expand_path` (string concatenation with '/') and the splitting loop of
@@ -18,7 +21,11 @@ Modelling decisions (all exercised by the correspondence check, tools/checks/c11
   * nodes are identified by their path; the `inodes` array is a list of paths, a node's inode number is its index + 1
     (the C code keeps `inodes[k]->inode_num == k + 1` through `map_inodes_dfs` and `reorder_hard_links`);
   * an error anywhere aborts the scan (`scan_directory` returns -1, the tool exits with failure);
-  * `fnmatch` is a parameter.
+  * `fnmatch` is a parameter;
+  * `qsort` is the C library's: ISO C only promises a permutation ordered by the comparison function.  The model uses
+    insertion sort with the code's comparison function; `Sqfs.C11.qsort_any_conforming` shows that on pairwise different
+    names every conforming `qsort` returns exactly this list;
+  * host errors (`readdir`/`fstatat`/`openat` failing, out of memory) are outside the statement and not modelled.
 Core Lean only; structural recursion or explicit fuel only.
 -/
 import Sqfs.Generated.Consts
@@ -35,6 +42,16 @@ def nameLt : Name → Name → Bool
   | [], _ :: _ => true
   | _ :: _, [] => false
   | a :: as, b :: bs => if a.toNat < b.toNat then true else if a.toNat = b.toNat then nameLt as bs else false
+
+/-- `strcmp(a, b)`: the difference of the first pair of differing bytes, both taken as `unsigned char`; when one
+string is a proper prefix of the other the terminating NUL of the shorter one decides.  ISO C fixes only the sign and
+every use below looks at the sign only; for the end-of-string cases the model returns ∓1 (for NUL-free strings — the
+only ones a C string can hold — that is the sign of `0 - b` resp. `a - 0`). -/
+def strcmpC : Name → Name → Int
+  | [], [] => 0
+  | [], _ :: _ => -1
+  | _ :: _, [] => 1
+  | a :: as, b :: bs => if a = b then strcmpC as bs else (a.toNat : Int) - (b.toNat : Int)
 
 /-! ## host side: one enumeration of a directory forest -/
 
@@ -65,7 +82,7 @@ def isType (mode ty : Nat) : Bool := (mode &&& sIFMT) == ty
 def isDirMode (mode : Nat) : Bool := isType mode sIFDIR
 def hasFlag (flags f : Nat) : Bool := (flags &&& f) != 0
 
-/-! ### the repaired native iterator: names collected and sorted with `strcmp` (fixes/C11-sorted-readdir.patch) -/
+/-! ### sorted insertion (shared by `insert_sorted` of fstree.c and the model of `qsort`) -/
 
 /-- the loop of `insert_sorted` (fstree.c), generic in the element type: skip while `strcmp(it->name, x->name) < 0`,
 link `x` in front of the first element that is not smaller -/
@@ -73,24 +90,50 @@ def insertBy {α : Type} (key : α → Name) (x : α) : List α → List α
   | [] => [x]
   | y :: ys => if nameLt (key y) (key x) then y :: insertBy key x ys else x :: y :: ys
 
-/-- one step of insertion sort by name -/
-def insertByName (x : HNode) (l : List HNode) : List HNode := insertBy HNode.name x l
+/-! ### the native iterator (dir_unix.c): `read_names` collects every name `readdir` returns and sorts them -/
 
-/-- `qsort(names, count, …, strcmp)` — on pairwise different names every correct sort returns this list -/
-def sortByName (l : List HNode) : List HNode := l.foldr insertByName []
+/-- `compare_names`: `strcmp(*(const char *const *)lhs, *(const char *const *)rhs)` -/
+def compareNames (a b : HNode) : Int := strcmpC a.name b.name
+
+/-- the `for (;;)` loop of `read_names`: every entry `readdir` returns — "." and ".." included — is appended
+(`it->names[it->count++] = name`; the doubling `realloc` moves the array but not its content).
+`acc` = `it->names[0 .. it->count)`. -/
+def collectNames : List HNode → List HNode → List HNode
+  | [], acc => acc
+  | e :: rest, acc => collectNames rest (acc ++ [e])
+
+/-- insertion step of the model of `qsort`: `x` goes in front of the first element `y` with `cmp(y, x) >= 0` -/
+def insertCmp {α : Type} (cmp : α → α → Int) (x : α) : List α → List α
+  | [] => [x]
+  | y :: ys => if cmp y x < 0 then y :: insertCmp cmp x ys else x :: y :: ys
+
+/-- `qsort(base, n, size, cmp)` -/
+def qsortBy {α : Type} (cmp : α → α → Int) : List α → List α
+  | [] => []
+  | x :: xs => insertCmp cmp x (qsortBy cmp xs)
+
+/-- `read_names`: collect, then `if (it->count > 1) qsort(it->names, it->count, …, compare_names)`.
+`sorted = false` is the iterator as it was before /repo 7ff9210 (entries served in `readdir` order): kept so that the
+check can name a reverted repair (`D16`) and for the witness in `Sqfs/Witness/C11.lean`. -/
+def readNames (sorted : Bool) (stream : List HNode) : List HNode :=
+  let names := collectNames stream []
+  if sorted && decide (names.length > 1) then qsortBy compareNames names else names
 
 mutual
-/-- the enumeration the patched `dir_unix.c` hands to the recursive iterator: every directory sorted -/
-def canonNode : HNode → HNode
-  | .mk n s t c => .mk n s t (sortByName (canonList c))
-def canonList : List HNode → List HNode
+/-- what the native iterators hand to the recursive iterator: `dir_rec.c` opens a native iterator for every
+sub-directory it descends into (`open_subdir` → `create_iterator`), and the first `next` on it runs `read_names` on
+that directory's `readdir` stream.  `read_names` depends on nothing but that stream, so it is applied here to every
+directory of the forest up front; the walk below then consumes `children` in the order served. -/
+def nativeNode (sorted : Bool) : HNode → HNode
+  | .mk n s t c => .mk n s t (readNames sorted (nativeList sorted c))
+def nativeList (sorted : Bool) : List HNode → List HNode
   | [] => []
-  | x :: xs => canonNode x :: canonList xs
+  | x :: xs => nativeNode sorted x :: nativeList sorted xs
 end
 
-/-- `sorted = true`: native iterator of the repaired tree; `false`: readdir order is passed through (code as pinned) -/
+/-- the enumeration the walk sees for the directory given on the command line / in the `glob` line -/
 def nativeOrder (sorted : Bool) (l : List HNode) : List HNode :=
-  if sorted then sortByName (canonList l) else l
+  readNames sorted (nativeList sorted l)
 
 /-! ## `sqfs_dir_entry_t` -/
 
@@ -195,9 +238,15 @@ def linkChild (parent : TNode) (n : TNode) : Option TNode :=
     if pa.linkCount = 0xFFFFFFFF then none /- EMLINK -/
     else some (.mk pn { pa with linkCount := pa.linkCount + 1 } (insertSorted n pc))
 
-/-- `mknode` for a leaf: create the node and link it into `parent` -/
-def mknode (parent : TNode) (name : Name) (ent : Ent) (extra : Extra) : Option TNode :=
-  linkChild parent (.mk name (mknodeAttr ent extra) [])
+/-- the nesting test at the top of `mknode`: a directory (not a hard link) whose parent has `depth` ancestors
+(`size = 1; for (n = parent; n->parent != NULL; n = n->parent) ++size;`) is refused when `size > SQFS_MAX_DIR_NESTING` -/
+def tooDeep (depth : Nat) (ent : Ent) : Bool :=
+  isDirMode ent.mode && !ent.hard && decide (depth + 1 > maxDirNesting)
+
+/-- `mknode` for a leaf: create the node and link it into `parent` (`depth` = number of ancestors of `parent`) -/
+def mknode (depth : Nat) (parent : TNode) (name : Name) (ent : Ent) (extra : Extra) : Option TNode :=
+  if tooDeep depth ent then none /- ENAMETOOLONG -/
+  else linkChild parent (.mk name (mknodeAttr ent extra) [])
 
 /-- the entry `fstree_get_node_by_path` fabricates for an implicitly created directory -/
 def implicitEnt (d : Defaults) : Ent :=
@@ -211,32 +260,48 @@ def overwrite (c : TNode) (ent : Ent) : Option TNode :=
   else some (.mk n { a with uid := ent.uid % 4294967296, gid := ent.gid % 4294967296, mode := ent.mode % 65536,
                              modTime := (ent.mtime % 4294967296).toNat, implicit := false } cs)
 
-/-- `fstree_add_generic` = `fstree_get_node_by_path(…, create_implicitly = true, stop_at_parent = true)` followed by
-`child_by_name` and either the overwrite branch or `mknode`; written as one descent that rebuilds the spine.
+/-- the part of `fstree_add_generic` behind its argument checks:
+`fstree_get_node_by_path(…, create_implicitly = true, stop_at_parent = true)` followed by `child_by_name` and either the
+overwrite branch or `mknode`; written as one descent that rebuilds the spine.  `depth` = number of ancestors of the
+node the descent stands on (0 at `fs->root`), what `mknode` recomputes by following `n->parent`.
 An implicitly created parent is a fresh childless node, so the descent continues into it before it is linked into
 its own parent — the resulting tree is the same as linking first and descending afterwards. -/
-def addPath (d : Defaults) (ent : Ent) (extra : Extra) : Path → TNode → Option TNode
-  | [], root => overwrite root ent                      -- `ent->name[0] == '\0'`: child = fs->root
-  | [n], dir =>
+def addPathAt (d : Defaults) (ent : Ent) (extra : Extra) : Nat → Path → TNode → Option TNode
+  | _, [], root => overwrite root ent                   -- `ent->name[0] == '\0'`: child = fs->root
+  | depth, [n], dir =>
       if !dir.isDir then none /- ENOTDIR -/
       else match childByName dir.children n with
         | some c =>
             match overwrite c ent with
             | none => none
             | some c' => some (.mk dir.name dir.attr (replaceChild c' dir.children))
-        | none => mknode dir n ent extra
-  | n :: rest, dir =>
+        | none => mknode depth dir n ent extra
+  | depth, n :: rest, dir =>
       if !dir.isDir then none /- ENOTDIR -/
       else match childByName dir.children n with
         | some c =>
-            match addPath d ent extra rest c with
+            match addPathAt d ent extra (depth + 1) rest c with
             | none => none
             | some c' => some (.mk dir.name dir.attr (replaceChild c' dir.children))
         | none =>
-            let fresh := TNode.mk n { mknodeAttr (implicitEnt d) .none with implicit := true } []
-            match addPath d ent extra rest fresh with
-            | none => none
-            | some c' => linkChild dir c'
+            if tooDeep depth (implicitEnt d) then none /- ENAMETOOLONG (mknode of the implicit directory) -/
+            else
+              let fresh := TNode.mk n { mknodeAttr (implicitEnt d) .none with implicit := true } []
+              match addPathAt d ent extra (depth + 1) rest fresh with
+              | none => none
+              | some c' => linkChild dir c'
+
+/-- the descent of `fstree_add_generic` from `fs->root` -/
+def addPath (d : Defaults) (ent : Ent) (extra : Extra) (p : Path) (root : TNode) : Option TNode :=
+  addPathAt d ent extra 0 p root
+
+/-- `fstree_add_generic`: argument checks, then the descent -/
+def addGeneric (d : Defaults) (ent : Ent) (extra : Extra) (root : TNode) : Option TNode :=
+  if isType ent.mode sIFLNK && decide (extra = Extra.none) then none /- EINVAL: symlink without target -/
+  else if decide (ent.uid > 0xFFFFFFFF) || decide (ent.gid > 0xFFFFFFFF) then none /- ERANGE -/
+  else if (isType ent.mode sIFBLK || isType ent.mode sIFCHR) && !ent.hard && decide (ent.rdev > 0xFFFFFFFF) then
+    none /- ERANGE -/
+  else addPath d ent extra ent.path root
 
 /-- `fstree_get_node_by_path(fs, root, path, false, false)` -/
 def lookup : TNode → Path → Option TNode
@@ -301,12 +366,14 @@ def nativeEntry (rel : Path) (dirDev : Nat) (name : Name) (s : Stat) : Ent :=
   { rel := rel ++ [name], path := rel ++ [name], mode := s.mode, uid := s.uid, gid := s.gid, mtime := s.mtime,
     dev := s.dev, ino := s.ino, rdev := s.rdev, mount := s.dev != dirDev, hard := false }
 
-/-- `dir_hl.c: next` — returns the entry, the link target (if detected) and the new `inumtree` -/
+/-- `dir_hl.c: next` on an entry handed out by the iterator below it — returns the entry, the link target (if
+detected) and the new `inumtree`.  `store_hard_link` remembers `ent->name`, which since /repo c5f1f00 is the name the
+tree iterator hands out (`e.path`: the glob's target prefix included). -/
 def hlNext (seen : List ((Nat × Nat) × Path)) (e : Ent) : Ent × Option Path × List ((Nat × Nat) × Path) :=
   if isDirMode e.mode then (e, none, seen)                      -- detect: NULL; store: nothing
   else match seenLookup seen (e.dev, e.ino) with
     | some tgt => ({ e with mode := inodeModeLnk ||| 0o777, hard := true }, some tgt, seen)
-    | none => (e, none, ((e.dev, e.ino), e.rel) :: seen)
+    | none => (e, none, ((e.dev, e.ino), e.path) :: seen)
 
 /-- `dir_tree_iterator.c: should_skip` -/
 def shouldSkip (cfg : Cfg) (e : Ent) : Bool :=
@@ -370,7 +437,7 @@ def scanStep (d : Defaults) (cfg : Cfg) (e : Ent) (hlTarget : Option Path) (symT
   match parentOf tree e.path with
   | none => some (tree, links, isDirMode e.mode)                  -- parent missing: entry dropped
   | some _ =>
-    match addPath d e (scanExtra cfg e hlTarget symTarget) e.path tree with
+    match addGeneric d e (scanExtra cfg e hlTarget symTarget) tree with
     | none => none
     | some tree' => some (tree', if e.hard then e.path :: links else links, false)
 
@@ -384,14 +451,18 @@ structure IterOut where
   hlTarget : Option Path
   seen : List ((Nat × Nat) × Path)
 
-/-- `dir_rec.c: next` (after the "."/".." test) → `dir_hl.c: next` (unless DIR_SCAN_NO_HARDLINKS) →
-`dir_tree_iterator.c: next` -/
+/-- `dir_rec.c: next` (after the "."/".." test) → `dir_tree_iterator.c: next` (filters, prefix, defaults) → `dir_hl.c: next`
+(unless DIR_SCAN_NO_HARDLINKS).  Since /repo c5f1f00 `dir_tree_iterator_create` wraps the hard-link filter *around* the tree
+iterator: hard links are detected on the entries that survive the type/name filters, under their prefixed names. -/
 def iterStep (cfg : Cfg) (fnm : Fnm) (rel : Path) (dirDev : Nat) (seen : List ((Nat × Nat) × Path)) (name : Name)
     (s : Stat) : IterOut :=
   let e0 := nativeEntry rel dirDev name s
-  let hl := if hasFlag cfg.flags dirScanNoHardlinks then (e0, none, seen) else hlNext seen e0
-  let ti := treeIterStep cfg fnm hl.1
-  { out := ti.1, recurse := ti.2, hlTarget := hl.2.1, seen := hl.2.2 }
+  let ti := treeIterStep cfg fnm e0
+  match ti.1 with
+  | none => { out := none, recurse := ti.2, hlTarget := none, seen := seen }
+  | some e1 =>
+    let hl := if hasFlag cfg.flags dirScanNoHardlinks then (e1, none, seen) else hlNext seen e1
+    { out := some hl.1, recurse := ti.2, hlTarget := hl.2.1, seen := hl.2.2 }
 
 mutual
 /-- one entry of the directory being read by the native iterator at the top of `dir_rec.c`'s stack, pushed through
@@ -401,6 +472,8 @@ def walkNode (d : Defaults) (cfg : Cfg) (fnm : Fnm) (rel : Path) (dirDev : Nat) 
   match h with
   | .mk name s target children =>
     if name = dotName || name = dotDotName then some st            -- dir_rec.c: "." and ".." are skipped
+    else if isDirMode s.mode && decide (rel.length + 1 > maxDirNesting) then
+      none   -- dir_rec.c: `it->depth > SQFS_MAX_DIR_NESTING` (the base directory is on the stack as well): SQFS_ERROR_OVERFLOW
     else
       let it := iterStep cfg fnm rel dirDev st.seen name s
       let r : Option (TNode × List Path × Bool) :=
@@ -434,23 +507,32 @@ def modifyAt (f : TNode → TNode) : Path → TNode → TNode
 
 def TNode.isHardLink (t : TNode) : Bool := isType t.attr.mode sIFLNK && t.attr.hard
 
-/-- `resolve_link`: follow the chain starting at the node at `start`.  Returns the path of the final node. -/
+/-- the loop of `resolve_link` from the node at `cur`; `start` = path of the link being resolved, `rem` =
+`max_hops - hops`.  Returns the path of the node the loop ends on.  A hop over an *unresolved* link costs one of
+`max_hops` (`hops++ >= max_hops` → `EMLINK`); a hop over a *resolved* link is free and ends on `data.target_node`,
+which `resolve_link` only ever sets to the node its own loop ended on, i.e. never to a hard link: the loop would go on
+from there, the model stops (`none`) — not reachable from states built by these functions. -/
 def followLink (root : TNode) (start : Path) : Nat → Path → Option Path
-  | 0, _ => none /- does not terminate (D12) -/
-  | fuel + 1, cur =>
+  | rem, cur =>
       match lookup root cur with
       | none => none /- ENOENT -/
       | some node =>
         if !node.isHardLink then some cur
         else
-          let next : Option Path :=
-            match node.attr.extra with
-            | .link _ (some r) => some r
-            | .link t none => (match lookup root t with | some _ => some t | none => none /- ENOENT -/)
-            | _ => none /- EINVAL -/
-          match next with
-          | none => none
-          | some nx => if nx = start then none /- EMLINK -/ else followLink root start fuel nx
+          match node.attr.extra with
+          | .link _ (some r) =>
+              if r = start then none /- EMLINK -/
+              else match lookup root r with
+                | none => none
+                | some n' => if n'.isHardLink then none else some r
+          | .link t none =>
+              match rem with
+              | 0 => none /- EMLINK: hops >= max_hops -/
+              | rem' + 1 =>
+                match lookup root t with
+                | none => none /- ENOENT -/
+                | some _ => if t = start then none /- EMLINK -/ else followLink root start rem' t
+          | _ => none /- EINVAL -/
 
 def setResolved (tgt : Path) (t : TNode) : TNode :=
   match t with
@@ -462,9 +544,9 @@ def bumpLinkCount (t : TNode) : TNode :=
   match t with
   | .mk n a cs => .mk n { a with linkCount := a.linkCount + 1 } cs
 
-/-- `resolve_link` for the link node at `p` -/
-def resolveLink (root : TNode) (fuel : Nat) (p : Path) : Option TNode :=
-  match followLink root p fuel p with
+/-- `resolve_link(fs, node, max_hops)` for the link node at `p` -/
+def resolveLink (root : TNode) (maxHops : Nat) (p : Path) : Option TNode :=
+  match followLink root p maxHops p with
   | none => none
   | some tp =>
     match lookup root tp with
@@ -474,13 +556,14 @@ def resolveLink (root : TNode) (fuel : Nat) (p : Path) : Option TNode :=
       else if tn.attr.linkCount = 0xFFFFFFFF then none /- EMLINK -/
       else some (modifyAt bumpLinkCount tp (modifyAt (setResolved tp) p root))
 
-/-- `fstree_resolve_hard_links`: pop `links_unresolved` until empty -/
-def resolveHardLinks (fuel : Nat) : List Path → TNode → Option TNode
+/-- `fstree_resolve_hard_links`: pop `links_unresolved` until empty; `count` = length of the list when the function
+is entered (the `max_hops` of every `resolve_link`) -/
+def resolveHardLinks (count : Nat) : List Path → TNode → Option TNode
   | [], t => some t
   | p :: rest, t =>
-      match resolveLink t fuel p with
+      match resolveLink t count p with
       | none => none
-      | some t' => resolveHardLinks fuel rest t'
+      | some t' => resolveHardLinks count rest t'
 
 mutual
 /-- `alloc_inode_num_dfs`: the nodes below `t` in the order in which they receive their numbers: first the whole
@@ -561,7 +644,7 @@ structure Result where
 
 /-- `fstree_post_process` given the tree and `links_unresolved` -/
 def postProcess (tree : TNode) (links : List Path) : Option Result :=
-  match resolveHardLinks (links.length + 2) links tree with
+  match resolveHardLinks links.length links tree with
   | none => none
   | some t =>
     let arr := allocOrder t
@@ -582,21 +665,25 @@ def scanInto (sorted : Bool) (d : Defaults) (cfg : Cfg) (fnm : Fnm) (rootDev : N
   | some st => some (st.tree, st.links)
 
 /-- `fstree_get_node_by_path(fs, fs->root, path, create_implicitly = true, stop_at_parent = false)` as `glob_files`
-uses it to fetch the target directory of a `glob` line -/
-def mkdirImplicit (d : Defaults) : Path → TNode → Option TNode
-  | [], t => some t
-  | n :: rest, dir =>
+uses it to fetch the target directory of a `glob` line (`depth` as in `addPathAt`) -/
+def mkdirImplicitAt (d : Defaults) : Nat → Path → TNode → Option TNode
+  | _, [], t => some t
+  | depth, n :: rest, dir =>
       if !dir.isDir then none /- ENOTDIR -/
       else match childByName dir.children n with
         | some c =>
-            match mkdirImplicit d rest c with
+            match mkdirImplicitAt d (depth + 1) rest c with
             | none => none
             | some c' => some (.mk dir.name dir.attr (replaceChild c' dir.children))
         | none =>
-            let fresh := TNode.mk n { mknodeAttr (implicitEnt d) .none with implicit := true } []
-            match mkdirImplicit d rest fresh with
-            | none => none
-            | some c' => linkChild dir c'
+            if tooDeep depth (implicitEnt d) then none /- ENAMETOOLONG -/
+            else
+              let fresh := TNode.mk n { mknodeAttr (implicitEnt d) .none with implicit := true } []
+              match mkdirImplicitAt d (depth + 1) rest fresh with
+              | none => none
+              | some c' => linkChild dir c'
+
+def mkdirImplicit (d : Defaults) (p : Path) (root : TNode) : Option TNode := mkdirImplicitAt d 0 p root
 
 /-- `glob_files`: fetch (or implicitly create) the target directory, which becomes `cfg.prefix`, then scan.
 The caller passes `cfg` with `pfx = target`. -/
@@ -609,11 +696,98 @@ def globInto (sorted : Bool) (d : Defaults) (cfg : Cfg) (fnm : Fnm) (rootDev : N
     | none => none /- ENOENT -/
     | some r => if !r.isDir then none /- ENOTDIR -/ else scanInto sorted d cfg fnm rootDev forest t1 links
 
+/-- mkfs.c `main`: `--set-uid` / `--set-gid` / `--all-root` (DIR_SCAN_KEEP_UID / _GID cleared) replace the default owner, i.e.
+the owner of the root inode and of implicitly created directories (/repo 94d8bc2) -/
+def mainDefaults (d : Defaults) (dirscanFlags forceUid forceGid : Nat) : Defaults :=
+  { d with uid := if hasFlag dirscanFlags dirScanKeepUid then d.uid else forceUid,
+           gid := if hasFlag dirscanFlags dirScanKeepGid then d.gid else forceGid }
+
 /-- `gensquashfs --pack-dir`: scan + post-process -/
 def packDir (sorted : Bool) (d : Defaults) (cfg : Cfg) (fnm : Fnm) (rootDev : Nat) (forest : List HNode) :
     Option Result :=
   match scanInto sorted d cfg fnm rootDev forest (initRoot d) [] with
   | none => none
   | some (t, links) => postProcess t links
+
+/-! ## `fstree_sort_files` (gensquashfs -S) and the order in which `pack_files` submits the file data -/
+
+/-- one line of the sort file after `decode_priority` / `decode_flags` / `decode_filename` -/
+structure SortRule where
+  prio : Int
+  /-- SQFS_BLK_* flags of the line -/
+  flags : Nat
+  doGlob : Bool
+  pathGlob : Bool
+  /-- file name or pattern -/
+  pat : List UInt8
+  deriving DecidableEq, Repr, Inhabited
+
+/-- a node of `fs->files` with the fields `fstree_sort_files` works on -/
+structure FileEnt where
+  path : Path
+  /-- `data.file.priority` -/
+  prio : Int
+  /-- `data.file.flags` -/
+  flags : Nat
+  /-- `FLAG_FILE_ALREADY_MATCHED` -/
+  matched : Bool
+  deriving DecidableEq, Repr, Inhabited
+
+/-- the loop over `fs->files` for one line of the sort file: nodes already matched are skipped; the node's path
+(`fstree_get_path` + `canonicalize_name`: components joined with '/', no leading slash) is compared with `strcmp` or
+`fnmatch(line, path, path_glob ? FNM_PATHNAME : 0)`; a literal line stops at its first match (`break`) -/
+def applySortRule (fnm : Fnm) (r : SortRule) : List FileEnt → List FileEnt
+  | [] => []
+  | f :: fs =>
+      if f.matched then f :: applySortRule fnm r fs
+      else
+        let hit := if r.doGlob then fnm r.pat (joinPath f.path) r.pathGlob else decide (joinPath f.path = r.pat)
+        if hit then
+          let f' : FileEnt := { f with prio := r.prio, flags := r.flags, matched := true }
+          if r.doGlob then f' :: applySortRule fnm r fs else f' :: fs
+        else f :: applySortRule fnm r fs
+
+/-- the scan of one round of `sort_file_list`: `low` starts at the head of the list and moves to a later node only if
+that node's priority is strictly lower — so it ends on the first node that carries the lowest priority -/
+def lowestFile : FileEnt → List FileEnt → FileEnt
+  | low, [] => low
+  | low, it :: rest => if it.prio < low.prio then lowestFile it rest else lowestFile low rest
+
+/-- unlink the first node that carries priority `p` (the node `low` points to at the end of the scan); every other
+node stays where it is -/
+def takeFirst (p : Int) : List FileEnt → Option (FileEnt × List FileEnt)
+  | [] => none
+  | f :: fs =>
+      if f.prio = p then some (f, fs)
+      else match takeFirst p fs with
+        | none => none
+        | some (x, rem) => some (x, f :: rem)
+
+/-- `sort_file_list`: repeatedly move the first node of lowest priority to the end of the output list
+(`fuel` = number of nodes) -/
+def sortFileList : Nat → List FileEnt → List FileEnt
+  | 0, _ => []
+  | _, [] => []
+  | fuel + 1, f :: fs =>
+      match takeFirst (lowestFile f fs).prio (f :: fs) with
+      | none => []          -- not reachable: `low` is a node of the list
+      | some (x, rem) => x :: sortFileList fuel rem
+
+/-- `fstree_sort_files`: reset priority/flags, apply the lines of the sort file in order, `sort_file_list` -/
+def sortFiles (fnm : Fnm) (rules : List SortRule) (files : List Path) : List FileEnt :=
+  let init : List FileEnt := files.map (fun p => { path := p, prio := 0, flags := 0, matched := false })
+  let marked := rules.foldl (fun acc r => applySortRule fnm r acc) init
+  sortFileList marked.length marked
+
+/-- mkfs.c `main`: scan, post-process, optional `fstree_sort_files`, then `pack_files` walks `fs->files` and hands each
+file (with its `data.file.flags`) to the block processor: the order and flags that determine where the data goes -/
+def packOrder (sorted : Bool) (d : Defaults) (cfg : Cfg) (fnm : Fnm) (rootDev : Nat) (forest : List HNode)
+    (sortfile : Option (List SortRule)) : Option (List (Path × Nat)) :=
+  match packDir sorted d cfg fnm rootDev forest with
+  | none => none
+  | some r =>
+    match sortfile with
+    | none => some (r.files.map (fun p => (p, 0)))
+    | some rules => some ((sortFiles fnm rules r.files).map (fun f => (f.path, f.flags)))
 
 end Sqfs.FsTree
